@@ -1684,14 +1684,23 @@ class Frame {
   // memory location of the frame, ie the first location after the caller's
   // frame.
   size_t offset;
-  // The running maximum size of the frame.
+  // The running maximum size of the locals and temporaries at the top of the
+  // frame.
   size_t size;
+  // The running maximum size of the outgoing call area at the bottom of the
+  // frame (link, return value and actual parameter slots, addressed from the
+  // stack pointer). It is kept separate from the temporaries so that the two
+  // can never overlap.
+  size_t outgoingSize;
   // Exit label.
   std::string exitLabel;
 
 public:
-  Frame(std::string exitLabel) : offset(0), size(0), exitLabel(exitLabel) {}
-  int getSize() { return size; }
+  Frame(std::string exitLabel) : offset(0), size(0), outgoingSize(0), exitLabel(exitLabel) {}
+  int getSize() { return size + outgoingSize; }
+  void reserveOutgoing(size_t amount) {
+    outgoingSize = std::max(outgoingSize, amount);
+  }
   void incOffset(int amount) {
     offset += amount;
     size = std::max(size, offset); // +1 since it's an offset?
@@ -2531,10 +2540,11 @@ public:
     }
   }
 
-  /// Generate actual parameters that contain calls.
+  /// Generate actual parameters that contain calls. The stack pointer offset is
+  /// left after the temporaries holding their values, so that they stay live
+  /// while loadActuals generates the remaining actuals.
   void genCallActuals(const std::vector<std::unique_ptr<Expr>> &args,
                       const std::string &currentScope) {
-    size_t stackOffset = currentFrame->getOffset();
     for (auto &arg : args) {
       if (containsCall(arg)) {
         // For each actual expression containing one or more calls, allocate a
@@ -2547,13 +2557,12 @@ public:
         currentFrame->incOffset(1);
       }
     }
-    // Restore the stack pointer offset so loadActuals can sequence through
-    // the call actual locations again.
-    currentFrame->setOffset(stackOffset);
   }
 
+  /// Store the actual parameters to their slots. tempOffset is the stack
+  /// pointer offset of the first temporary written by genCallActuals.
   void loadActuals(const std::vector<std::unique_ptr<Expr>> &args, size_t parameterOffset,
-                   const std::string &currentScope) {
+                   const std::string &currentScope, size_t tempOffset) {
     size_t parameterIndex = parameterOffset;
     for (auto &arg : args) {
       if (containsCall(arg)) {
@@ -2561,8 +2570,8 @@ public:
         // expression value saved to a temporary stack location and store it
         // to the actual parameter location.
         genLDAM(SP_OFFSET);
-        genLDAI_FB(currentFrame, -currentFrame->getOffset());
-        currentFrame->incOffset(1);
+        genLDAI_FB(currentFrame, -tempOffset);
+        tempOffset++;
         genLDBM(SP_OFFSET);
         genSTAI(parameterIndex);
       } else {
@@ -2580,9 +2589,9 @@ public:
                   const std::string &currentScope) {
     auto stackOffset = currentFrame->getOffset();
     // Actual parameters.
+    currentFrame->reserveOutgoing(args.size() + FB_PARAM_OFFSET_FUNC);
     genCallActuals(args, currentScope);
-    loadActuals(args, FB_PARAM_OFFSET_FUNC, currentScope);
-    currentFrame->incOffset(args.size() + FB_PARAM_OFFSET_FUNC);
+    loadActuals(args, FB_PARAM_OFFSET_FUNC, currentScope, stackOffset);
     // Perform syscall.
     genLDAC(syscallId);
     genOPR(hexasm::Token::SVC);
@@ -2596,9 +2605,9 @@ public:
                    const std::string &currentScope) {
     auto stackOffset = currentFrame->getOffset();
     // Actual parameters.
+    currentFrame->reserveOutgoing(args.size() + FB_PARAM_OFFSET_FUNC);
     genCallActuals(args, currentScope);
-    loadActuals(args, FB_PARAM_OFFSET_FUNC, currentScope);
-    currentFrame->incOffset(args.size() + FB_PARAM_OFFSET_FUNC);
+    loadActuals(args, FB_PARAM_OFFSET_FUNC, currentScope, stackOffset);
     // Branch and link.
     auto linkLabel = getLabel();
     genLDAP(linkLabel);
@@ -2614,9 +2623,9 @@ public:
                    const std::string &currentScope) {
     auto stackOffset = currentFrame->getOffset();
     // Actual parameters.
+    currentFrame->reserveOutgoing(args.size() + FB_PARAM_OFFSET_PROC);
     genCallActuals(args, currentScope);
-    loadActuals(args, FB_PARAM_OFFSET_PROC, currentScope);
-    currentFrame->incOffset(args.size() + FB_PARAM_OFFSET_PROC);
+    loadActuals(args, FB_PARAM_OFFSET_PROC, currentScope, stackOffset);
     // Branch and link.
     auto linkLabel = getLabel();
     genLDAP(linkLabel);
